@@ -5,6 +5,7 @@
 From ZV.Common Require Import Base.
 From ZV.C07 Require Import Model ProofsArith ProofsLockFree ProofsProps ProofsBump ProofsFixedCap.
 From ZV.C07 Require Import ModelFive ProofsFiveArith ProofsFive ProofsFiveProps Cases.
+From ZV.C07 Require Import ModelTL ProofsTL ProofsTLProps.
 Open Scope N_scope.
 
 (* any two live allocations occupy disjoint byte ranges - for every history and every arena size *)
@@ -310,3 +311,70 @@ Check five_small_align_refuted :
     live5 (final5 Pinned c ops) = [(0, 2); (2, 2); (4, 2)] /\
     2 mod 4 <> 0 /\ ~ disjoint 2 4 4 (cap5 c 2).
 Print Assumptions five_small_align_refuted.
+
+(* ------------------------------------------------------------------------------------------- *)
+(* ThreadLocalMemoryPool (ModelTL.v)                                                           *)
+(* ------------------------------------------------------------------------------------------- *)
+(* ThreadLocalMemoryPool (thread cache front end): for every arena size, cache bound and history of allocate / guard drop, two
+   live blocks lie in different arenas or are disjoint at their full class sizes; every live block is at least as large
+   as requested, 8-aligned, inside its arena, and its arena is one the cache still owns *)
+Theorem threadlocal_inv :
+  forall c ops,
+    let s := tl_final c ops in
+    (forall i j b1 r1 b2 r2, i <> j -> nth_error (tl_live s) i = Some (b1, r1) -> nth_error (tl_live s) j = Some (b2, r2) ->
+       fst b1 <> fst b2 \/ disjoint (snd b1) (tl_cap r1) (snd b2) (tl_cap r2)) /\
+    (forall b r, In (b, r) (tl_live s) ->
+       0 < r /\ r <= tl_cap r /\ snd b mod 8 = 0 /\ snd b + tl_cap r <= tl_arena c /\ fst b < tl_n (tl_p s)).
+Proof. exact threadlocal_inv_proof. Qed.
+Check threadlocal_inv :
+  forall c ops,
+    let s := tl_final c ops in
+    (forall i j b1 r1 b2 r2, i <> j -> nth_error (tl_live s) i = Some (b1, r1) -> nth_error (tl_live s) j = Some (b2, r2) ->
+       fst b1 <> fst b2 \/ disjoint (snd b1) (tl_cap r1) (snd b2) (tl_cap r2)) /\
+    (forall b r, In (b, r) (tl_live s) ->
+       0 < r /\ r <= tl_cap r /\ snd b mod 8 = 0 /\ snd b + tl_cap r <= tl_arena c /\ fst b < tl_n (tl_p s)).
+Print Assumptions threadlocal_inv.
+
+(* a request larger than an arena is refused and leaves the cache unchanged, in every reachable state *)
+Theorem threadlocal_refuses_over_capacity :
+  forall c ops size, tl_arena c < size ->
+    tl_alloc c (tl_p (tl_final c ops)) size = (None, tl_p (tl_final c ops)).
+Proof. exact threadlocal_refuses_proof. Qed.
+Check threadlocal_refuses_over_capacity :
+  forall c ops size, tl_arena c < size ->
+    tl_alloc c (tl_p (tl_final c ops)) size = (None, tl_p (tl_final c ops)).
+Print Assumptions threadlocal_refuses_over_capacity.
+
+(* a cached block is re-issued only from the list of the request's own class, whose block size holds the request *)
+Theorem threadlocal_reissue_fits :
+  forall c st size b st',
+    tl_alloc c st size = (Some b, st') -> tl_hot st' = tl_hot st -> tl_n st' = tl_n st ->
+    exists i, tl_class_of size = Some i /\ In (i, b) (tl_fl st) /\ size <= tl_class_size i.
+Proof. exact threadlocal_reissue_fits_proof. Qed.
+Check threadlocal_reissue_fits :
+  forall c st size b st',
+    tl_alloc c st size = (Some b, st') -> tl_hot st' = tl_hot st -> tl_n st' = tl_n st ->
+    exists i, tl_class_of size = Some i /\ In (i, b) (tl_fl st) /\ size <= tl_class_size i.
+Print Assumptions threadlocal_reissue_fits.
+
+(* a dropped guard returns its block for reuse: while the class list has room the next request of the class gets that block *)
+Theorem threadlocal_free_reuse :
+  forall c st b req i req2,
+    tl_class_of req = Some i -> countk i (tl_fl st) < tl_maxc c -> tl_class_of req2 = Some i -> 0 < req2 ->
+    fst (tl_alloc c (tl_free c st b req) req2) = Some b.
+Proof. exact threadlocal_free_reuse_proof. Qed.
+Check threadlocal_free_reuse :
+  forall c st b req i req2,
+    tl_class_of req = Some i -> countk i (tl_fl st) < tl_maxc c -> tl_class_of req2 = Some i -> 0 < req2 ->
+    fst (tl_alloc c (tl_free c st b req) req2) = Some b.
+Print Assumptions threadlocal_free_reuse.
+
+(* exhausted arenas are retained: the arena of a live block is still owned by the cache after any continuation of the history *)
+Theorem threadlocal_arenas_retained :
+  forall c ops ops' b r,
+    In (b, r) (tl_live (tl_final c ops)) -> fst b < tl_n (tl_p (tl_final c (ops ++ ops'))).
+Proof. exact threadlocal_arenas_retained_proof. Qed.
+Check threadlocal_arenas_retained :
+  forall c ops ops' b r,
+    In (b, r) (tl_live (tl_final c ops)) -> fst b < tl_n (tl_p (tl_final c (ops ++ ops'))).
+Print Assumptions threadlocal_arenas_retained.
